@@ -2,8 +2,11 @@ package checks
 
 import (
 	"bytes"
+	"encoding/json"
 	"fmt"
+	"github.com/veraison/eat"
 	"reflect"
+	"strings"
 	"testing"
 
 	"github.com/veraison/psatoken"
@@ -351,6 +354,44 @@ type c11SweepIn struct {
 	Op     setterOp `json:"op"`
 }
 
+// c11StartKind: further start states - "bare" = a struct literal holding
+// only the profile (component container nil), "json-nulls" = a constructor-made
+// object that decoded a JSON document with the profile and
+// "psa-software-components": null (what EncodeClaimsToJSON emits for an
+// incomplete profile-2 set).
+func c11StartKind(p Prof, kind string) (psatoken.IClaims, *MClaims, string) {
+	switch kind {
+	case "fresh":
+		return c11Start(p, false)
+	case "populated":
+		return c11Start(p, true)
+	case "bare":
+		m := &MClaims{Prof: p, Profile: sp(p.Name()), CompsNil: true}
+		if p == P1 {
+			n := P1Name
+			return &psatoken.P1Claims{Profile: &n, CanonicalProfile: P1Name}, m, ""
+		}
+		pr := eat.Profile{}
+		if err := pr.Set(P2Name); err != nil {
+			return nil, nil, "VERIF-INFRA: " + err.Error()
+		}
+		return &psatoken.P2Claims{Profile: &pr, CanonicalProfile: P2Name}, m, ""
+	default:
+		c, err := psatoken.NewClaims(p.Name())
+		if err != nil {
+			return nil, nil, "VERIF-INFRA: " + err.Error()
+		}
+		doc := `{"eat-profile":"` + P2Name + `","psa-software-components":null}`
+		if p == P1 {
+			doc = `{"psa-profile":"` + P1Name + `","psa-software-components":null}`
+		}
+		if err := json.Unmarshal([]byte(doc), c); err != nil {
+			return nil, nil, "VERIF-INFRA: start document does not decode: " + err.Error()
+		}
+		return c, &MClaims{Prof: p, Profile: sp(p.Name()), CompsNil: true}, ""
+	}
+}
+
 func c11Start(p Prof, filled bool) (psatoken.IClaims, *MClaims, string) {
 	if !filled {
 		c, err := psatoken.NewClaims(p.Name())
@@ -435,6 +476,10 @@ var c11CompKind = registerKind("c11comp", func(in c11CompIn) string {
 
 // strings that are not valid UTF-8: validation (non-empty text) accepts them,
 // so the setters must
+// texts far longer than any boundary the encodings have (validation puts no
+// upper limit on free text)
+var longTexts = []string{strings.Repeat("x", 1024), strings.Repeat("x", 1025), strings.Repeat("y", 5000), strings.Repeat("z", 70000)}
+
 var nonUTF8Texts = []string{"\xff", "a\xffb", "\xc3", "\x80", "\xed\xa0\x80", "https://psa-verifier.org/\xc3\x28", "\xf8\x88\x80\x80\x80"}
 
 type c11CopyIn struct {
@@ -607,7 +652,7 @@ func TestC11_Sweep(t *testing.T) {
 					try(v, fmt.Sprintf("samebytelen-nonascii-digits/%d", i))
 				}
 			}
-			for _, s := range append(append([]string{"", " ", "x", "https://psa-verifier.org"}, interestingTexts...), nonUTF8Texts...) {
+			for _, s := range append(append(append([]string{"", " ", "x", "https://psa-verifier.org"}, interestingTexts...), nonUTF8Texts...), longTexts...) {
 				run(c11SweepIn{p, filled, setterOp{Claim: CVSI, Text: s}}, fmt.Sprintf("%svsi/%q", pre, s))
 			}
 			for _, v := range []int32{0, 1, -1, 2147483647, -2147483648} {
@@ -642,7 +687,7 @@ func TestC11_Sweep(t *testing.T) {
 	}
 	prevs := []*string{nil, sp("old"), sp("")}
 	for _, f := range []string{"type", "version", "desc"} {
-		for _, txt := range append(append([]string{"", " ", "x"}, interestingTexts...), nonUTF8Texts...) {
+		for _, txt := range append(append(append([]string{"", " ", "x"}, interestingTexts...), nonUTF8Texts...), longTexts...) {
 			for pi, prev := range prevs {
 				in := struct {
 					Field string  `json:"field"`
@@ -738,11 +783,12 @@ func drawSetterOp(t *rapid.T, p Prof) setterOp {
 
 func TestC11_Sequences(t *testing.T) {
 	st := NewStats("C11", "TestC11_Sequences", "rapid: sequences of 1..40 setter calls (all nine setters of both profiles, SetSoftwareComponents with nil / empty / valid list / list with one invalid component, container Add/Replace), valid and invalid values interleaved, against a reference model of the final values; after every call: agreement setter<->rule, getters equal the model, failure leaves Observe() unchanged, Validate() once all mandatory claims are set; at the end: encodings equal those of a fresh object given only the final values. Non-trivial = contains a failed call followed by a successful one, or a list/flag switch; distinct = sequence hash")
-	st.Require = []string{"fail-then-success", "P1", "P2", "mode0", "mode1", "mode2", "mode3", "complete"}
+	st.Require = []string{"fail-then-success", "P1", "P2", "mode0", "mode1", "mode2", "mode3", "complete", "start=bare", "start=json-nulls"}
 	defer st.Flush(t)
 	rapid.Check(t, func(t *rapid.T) {
 		p := drawProf(t)
-		c, m, msg := c11Start(p, genBool.Draw(t, "startPopulated"))
+		startKind := rapid.SampledFrom([]string{"fresh", "populated", "fresh", "populated", "bare", "json-nulls"}).Draw(t, "start")
+		c, m, msg := c11StartKind(p, startKind)
 		if msg != "" {
 			t.Fatalf("%s", msg)
 		}
@@ -779,7 +825,7 @@ func TestC11_Sequences(t *testing.T) {
 		if s := c11Final(c, m); s != "" {
 			t.Fatalf("C11 violated at the end of %s: %s", trace, s)
 		}
-		cls := []string{p.String()}
+		cls := []string{p.String(), "start=" + startKind}
 		for k := range modes {
 			cls = append(cls, k)
 		}
